@@ -30,7 +30,10 @@ type Chan[T any] struct {
 	closed bool
 	recvq  []*waiter[T]
 	sendq  []*waiter[T]
+	id     int
 }
+
+func (c *Chan[T]) VrtID() *int { return &c.id }
 
 func Make[T any](n int) *Chan[T] { return &Chan[T]{cap: n} }
 
@@ -46,6 +49,7 @@ type Case interface {
 	fire()
 	enqueue(s *selState, idx int)
 	kind() string
+	touch()
 }
 
 type recvCase[T any] struct {
@@ -83,6 +87,11 @@ func hasLive[T any](q []*waiter[T]) bool {
 }
 
 func (r *recvCase[T]) kind() string { return "recv" }
+func (r *recvCase[T]) touch() {
+	if r.c != nil {
+		vrt.Touch(r.c)
+	}
+}
 func (r *recvCase[T]) ready() bool {
 	c := r.c
 	if c == nil {
@@ -129,6 +138,11 @@ func (r *recvCase[T]) enqueue(s *selState, idx int) {
 }
 
 func (s *sendCase[T]) kind() string { return "send" }
+func (s *sendCase[T]) touch() {
+	if s.c != nil {
+		vrt.Touch(s.c)
+	}
+}
 func (s *sendCase[T]) ready() bool {
 	c := s.c
 	if c == nil {
@@ -166,7 +180,10 @@ func (s *sendCase[T]) enqueue(st *selState, idx int) {
 // Select performs one select statement and returns the index of the case
 // that fired, or -1 for the default clause.
 func Select(hasDefault bool, cases ...Case) int {
-	vrt.Yield("select")
+	vrt.ShimYield("select")
+	for _, c := range cases {
+		c.touch() // inspecting a channel's state is part of the footprint
+	}
 	var ready []int
 	for i, c := range cases {
 		if c.ready() {
@@ -190,6 +207,9 @@ func Select(hasDefault bool, cases ...Case) int {
 		label = "chan " + cases[0].kind() + "(parked)"
 	}
 	vrt.Await(func() bool { return st.fired }, label)
+	for _, c := range cases {
+		c.touch()
+	}
 	if st.panicMsg != "" {
 		panic(st.panicMsg)
 	}
@@ -214,10 +234,11 @@ func Recv2[T any](c *Chan[T]) (T, bool) {
 }
 
 func Close[T any](c *Chan[T]) {
-	vrt.Yield("close")
+	vrt.ShimYield("close")
 	if c == nil {
 		panic("close of nil channel")
 	}
+	vrt.Touch(c)
 	if c.closed {
 		panic("close of closed channel")
 	}
@@ -249,6 +270,7 @@ func Close[T any](c *Chan[T]) {
 // CloseQuiet closes without a scheduling point (used by vcontext, whose cancel
 // is itself the visible operation).
 func CloseQuiet[T any](c *Chan[T]) {
+	vrt.Touch(c)
 	if c.closed {
 		return
 	}
